@@ -346,6 +346,7 @@ def gen_hold_script(rng, nhosts=None):
     ids = IdGen()
     steps = [WARMUP()]
     held = set()
+    repairs = rng.random() < 0.3       # this script also repairs held links
     nsteps = rng.randrange(8, 18)
     for k in range(nsteps):
         ctl, hosts = [], {}
@@ -362,6 +363,14 @@ def gen_hold_script(rng, nhosts=None):
             ctl.append(["release", sa, sb])
             for x, y in for_pairs(sel_hosts(sa, n), sel_hosts(sb, n)):
                 held.discard((min(x, y), max(x, y)))
+        if held and repairs and rng.random() < 0.3:
+            # repair of a held link: new messages flow again, parked ones stay parked until the release
+            a, b = rng.choice(sorted(held))
+            if rng.random() < 0.6:
+                ctl.append(["repair", rand_sel(rng, a), rand_sel(rng, b)])
+            else:
+                x, y = rng.choice([(a, b), (b, a)])
+                ctl.append(["repair_oneway", rand_sel(rng, x), rand_sel(rng, y)])
         if held and rng.random() < 0.15:
             # release immediately followed by hold (before the next tick): released messages are re-held
             a, b = rng.choice(sorted(held))
